@@ -3,6 +3,7 @@ package main
 import (
 	"crypto/sha256"
 	"fmt"
+	"os"
 	"time"
 
 	"github.com/meshplus/bitxhub-core/governance"
@@ -12,7 +13,7 @@ import (
 )
 
 func main() {
-	c, err := hx.NewChain(hx.ChainOpts{Quiet: true})
+	c, err := hx.NewChain(hx.ChainOpts{Quiet: true, LedgerType: os.Getenv("HX_LEDGER"), LeveldbType: os.Getenv("HX_LDB")})
 	if err != nil {
 		panic(err)
 	}
